@@ -379,25 +379,14 @@ def run_mixed(chk, exe, found_limit=2):
     found = 0
     seen_sites = set()
     # Every fourth program runs with the code allocator whose regions are > 2 GiB apart (whole-function interfaces only:
-    # lazy-BB is the known finding lazybb-far-code) -- but only when the recorded open witnesses of far-code defects
-    # (corpus/c03_open_far.jsonl: _MIR_get_wrapper's rel32 jump to wrapper_end, fixes/C03-6.patch) pass on the tree under
-    # test; while one still fails the far variant is counted as disabled instead of repeating that defect.
-    far_ok = True
-    fw = os.path.join(vlib.VERIF, 'corpus', 'c03_open_far.jsonl')
-    if os.path.exists(fw):
-        for line in open(fw):
-            if line.strip() and not line.startswith('#'):
-                j = json.loads(line)
-                o = run_prog(exe, write_prog(j['text'], 'openfar'), j['specs'], j['calls'], j['opt'])
-                ok = disagree(o) is None
-                chk.dist('open_far_witness', '%s:%s' % (j['name'], 'passes' if ok else 'still-fails'))
-                far_ok = far_ok and ok
+    # lazy-BB is the known finding lazybb-far-code).  The two far-code defects these histories found (fixes/C03-5, C03-6)
+    # are repaired in /repo; their witnesses are ordinary lines of corpus/c03_ifaces.jsonl.
     for k in range(40 if quick else 300):
         prog = G.gen_program(rng, feats=FEATS, mixed=True)
         opt = rng.choice([0, 1, 1, 2, 3])
         path = write_prog(prog['text'], 'mx')
-        far = far_ok and k % 4 == 3
-        chk.dist('mixed_far_allocator', 'far' if far else ('disabled' if k % 4 == 3 else 'near'))
+        far = k % 4 == 3
+        chk.dist('mixed_far_allocator', 'far' if far else 'near')
         for _ in range(2):
             steps = G.gen_mixed_history(rng, prog, ifaces=('interp', 'lazy', 'lazy', 'gen')) if k % 4 == 3 else G.gen_mixed_history(rng, prog)
             outs = run_hists(exe, path, [hist_ops(steps, True), hist_ops(steps)], opt, far=far)
